@@ -510,6 +510,29 @@ func runC20Narrowing(c *Ctx) {
 		r.Add(core.Obligation{Rule: "netip-text", Key: "netip-text Line.IP", Func: core.FuncName(fn), Pos: c.P.Pos(fn.Pos()), Status: st,
 			Basis: "every path with IsValid() passes (netip.Addr).AppendTo", Detail: det})
 	}
+	// durations are rendered by the standard library itself: every return of Line.Duration has passed
+	// (time.Duration).String on the value (a hand-written fast path has to reproduce the unit switching at 1µs, 1ms, 1s, 1m, 1h)
+	r.Rule("duration-text", "Line.Duration renders every value with time.Duration.String", 1)
+	if fn := c.P.Method("fastlog", "Line", "Duration"); fn != nil && len(fn.Blocks) > 0 && len(fn.Blocks[0].Instrs) > 0 {
+		st, det := core.Proved, ""
+		isStr := func(j ssa.Instruction) bool {
+			cj, isCall := j.(ssa.CallInstruction)
+			return isCall && core.CalleeName(cj) == "(time.Duration).String" && len(cj.Common().Args) == 1 && cj.Common().Args[0] == ssa.Value(fn.Params[2])
+		}
+		first := fn.Blocks[0].Instrs[0]
+		core.EachInstr(fn, func(i ssa.Instruction) {
+			ret, ok := i.(*ssa.Return)
+			if !ok {
+				return
+			}
+			if !isStr(first) && reachesWithout(first, ret, isStr) {
+				st = core.Violated
+				det = "Line.Duration reaches the return at " + c.P.Pos(core.PosOf(ret)) + " without time.Duration.String on its argument: the value is rendered by other code, which has to agree with the standard library at every unit boundary (60s is 1m0s)"
+			}
+		})
+		r.Add(core.Obligation{Rule: "duration-text", Key: "duration-text Line.Duration", Func: core.FuncName(fn), Pos: c.P.Pos(fn.Pos()), Status: st,
+			Basis: "every path passes (time.Duration).String(duration)", Detail: det})
+	}
 	r.Rule("narrowing", "integer appenders do not narrow the value before rendering it", 5)
 	sizes := types.SizesFor("gc", "amd64")
 	for _, name := range []string{"Int", "Uint8", "Uint16", "Uint32", "Uint8Hex", "Uint16Hex"} {
